@@ -99,7 +99,7 @@ fn main() {
                 eprintln!("bad replay file: {}", e);
                 std::process::exit(2);
             });
-            let id = file["property"].as_str().unwrap_or("");
+            let id = file["scenario"].as_str().or(file["property"].as_str()).unwrap_or("");
             let Some(scn) = scen::by_id(id) else {
                 eprintln!("unknown property {}", id);
                 std::process::exit(2);
